@@ -35,6 +35,7 @@ import RedisVerif.Model.ExecutorX
     XCLK <now> <set_time|evict_expired_direct|update_time_readonly>   → "xclk"
     <now> XC <OP> <args…> ;; …      → "<reply> | <PHYSICAL dump of `data`: n {key ttl|-1|dead value}> | nexp=<expirations.len()>"
     <now> XADOPT ;; <physical dump> → "xadopt"     after a command the transcription does not cover
+    <now> XR GET k | EXISTS … | KEYS ;;      → "<reply>"   `execute_readonly` on the same state (`cReadonly`)
     <now> XX SETBIT … | GETBIT … | BATCHSET … | BATCHGET … | KEYS <pattern> ;; …   → like XC (`Model.ExecutorX.execXC`)
     <now> XS OBJENC|OBJREF|OBJIDLE|OBJFREQ|DEBUGOBJ <key> ;; …   → "<reply> | <physical dump> | nexp=…"  (`execStub`)
     <now> XS CONST <Variant> ;; …                                  → "? | <physical dump> | nexp=…"
@@ -254,6 +255,13 @@ def stepLine (st : DState) (l : String) : DState × String :=
       | some (c', r) =>
         ({ st with code := c' }, s!"{showReply (canonReply c r)} | {showPhys c'} | nexp={c'.exp.length}")
       | none => (st, "crash")
+    | none => (st, "bad-op")
+  | _ :: "XR" :: rest =>
+    match xcLine.run rest with
+    | some (c, _) =>
+      match Executor.cReadonly st.code c with
+      | some r => (st, showReply (canonReply c r))
+      | none => (st, "unsupported")
     | none => (st, "bad-op")
   | _ :: "XX" :: rest =>
     let p : P RedisX.XCmd := do
